@@ -19,6 +19,7 @@ type Scenario struct {
 	Ref    *RefRun
 	pw     workflow.ExecutableWorkflow
 	prepErr error
+	sch    map[string]map[string]stageSchemas
 }
 
 func (s *Scenario) String() string {
